@@ -3,6 +3,7 @@
    stays pak0), then finite case analyses of post_checks / run_main. *)
 From Coq Require Import ZArith List Bool Lia ZifyBool.
 From Wencry Require Import CliModel.
+From Wencry Require Export CliGlueText.
 Import ListNotations.
 Local Open Scope Z_scope.
 
